@@ -25,7 +25,7 @@ RULE = (
     "unfinished line that is a syntax error: reindex must refuse) and repair it later, advance the calendar by "
     "1-40 days, `db reindex`, `db reindex <absolute paths of a subset>`; finally a plain `db reindex`.  Oracle "
     "(differential): the final files are copied to a fresh directory and indexed with `db create` under the same "
-    "frozen day; the canonical dump of the incremental index (notes with every field, partition into blocks, page "
+    "frozen day; the canonical dump of the incremental index (notes with every field, page "
     "rows) must equal the fresh one, 7 fixed queries must print the same text on both, and the rebuild must not "
     "need to change any file.  Every edit is gated by an independent parse (invalid edits are skipped and "
     "counted).  Non-trivial = >= 1 reindex before the final one and >= 2 of {page delete, page rename, note move, "
